@@ -56,6 +56,13 @@ CHECKS["C20"] = dict(
     design="4 (C20)",
 )
 
+CHECKS["C19"] = dict(
+    technique="Coq proof (invariant of the registration walk by induction on fuel: rules are duplicate-free, disjoint, non-empty; field arithmetic over Q for the normalisation loop; shape-independence of the analysis from the weights) over a hand-written Gallina model of extract_grammar/update_weights + differential correspondence on real class hierarchies extracted 1-3 times + contract evaluated on the observed get_weights()",
+    text="6 theorems (Props/C19.v, closed under the global context): for EVERY class hierarchy and every iteration order, after a weighted extraction every rule's reported weights sum to one, lie in [0,1] and keep the declared ratios (unweighted = 1); extracting again yields the same productions and the same weight for every symbol; an all-zero rule is an error, never a silently wrong grammar; the weighted chooser never returns a zero-increment option. Tied to /repo by ~230 generated hierarchies per run (nested abstract types, zero weights, productions reached only through fields, unreachable classes) materialised as real modules and extracted 1-3 times; the whole Grammar object is compared with the model inside Coq.",
+    note="Trusted: Coq kernel + vm_compute; hand-written model Model/Grammar.v; harness. Weights are exact rationals in the model, floats compared with tolerance 1e-9 (float rounding: partial). The production choice of ProgressivelyTerminalDecider multiplies the weight by a depth heuristic that may itself be zero; the chooser clause is proved for RandomSource.choice_weighted (shared with C18) and the decider's use of it is covered by the synthesis model (C01).",
+    design="4 (C19)",
+)
+
 ALL = [f"C{n:02d}" for n in range(1, 21)]
 
 m = {
